@@ -53,6 +53,19 @@ Proof. unfold square. gd. Qed.
 Theorem C20_UtriangleQsparse : forall d, guard_UtriangleQsparse d =
   negb (is2 (A d) && square (A d) && Nat.eqb (a_s0 (A d)) (a_s0 (B d))).
 Proof. unfold is2, square. gd. Qed.
+(* complex-adjoint power iteration: both enumerated options are validated, whatever the matrix *)
+Theorem C20_power_iteration_nonhermitian : forall d, guard_power_iteration_nonhermitian d =
+  negb ((String.eqb (opt d) "complex" || String.eqb (opt d) "quaternion") && String.eqb (opt2 d) "x").
+Proof. gd. Qed.
+(* Q-GMRES: square matrix, right-hand side with as many rows -- checked before the preconditioner and before the b = 0 shortcut *)
+Theorem C20_qgmres_solve : forall d, guard_qgmres_solve d = negb (square (A d) && Nat.eqb (a_s0 (B d)) (a_s0 (A d))).
+Proof. unfold square. gd. Qed.
+(* --- shape-coupled argument pair of the reflector builders: same shape (1-D against 1-D, column against column ...), real target --- *)
+Definition same_shape (x y : arr) : bool := Nat.eqb (a_ndim x) (a_ndim y) && Nat.eqb (a_s0 x) (a_s0 y) && Nat.eqb (a_s1 x) (a_s1 y).
+Theorem C20_householder_vector : forall d, guard_householder_vector d = negb (same_shape (A d) (B d) && is_realdt (a_dt (B d))).
+Proof. unfold same_shape. intros d. unfold guard_householder_vector. destruct (a_dt (B d)); cbn [is_quat is_realdt]; btauto. Qed.
+Theorem C20_householder_matrix : forall d, guard_householder_matrix d = negb (same_shape (A d) (B d)).
+Proof. unfold same_shape. gd. Qed.
 (* --- orientation guards of the pseudoinverse solvers --- *)
 Definition tall (x : arr) : bool := Nat.leb (a_s1 x) (a_s0 x).
 Definition wide (x : arr) : bool := Nat.leb (a_s0 x) (a_s1 x).
@@ -117,7 +130,7 @@ Proof. gd. Qed.
 
 (* in-domain boundary arguments are never rejected: 1x1, 1xn, nx1 *)
 Definition mkarr nd dt k s0 s1 s2 := {| a_nd := nd; a_dt := dt; a_ndim := k; a_s0 := s0; a_s1 := s1; a_s2 := s2 |}.
-Definition mkd a b o h x y z := {| A := a; B := b; opt := o; herm := h; n1 := x; n2 := y; n3 := z |}.
+Definition mkd a b o h x y z := {| A := a; B := b; opt := o; opt2 := "None"; herm := h; n1 := x; n2 := y; n3 := z |}.
 Theorem C20_boundary_shapes_accepted : forall n,
   let q r c := mkd (mkarr true DQuat 2 r c 0) (mkarr true DQuat 2 r 1 0) "None" true r c 0 in
   guard_induced_matrix_norm_1 (q 1 n) = false /\ guard_induced_matrix_norm_inf (q n 1) = false /\
